@@ -569,6 +569,24 @@ namespace plan
       tps.push_back(v);
       planted[v] = mpq_class(2 * static_cast<long>(tps.size()) - 2);
       decl("tp " + v + ";");
+      if ((op.arg(0) & 1) && tp_fixed.empty())
+      { // a real variable with a single value, stated at top level: inside disjuncts (evaluated while solving, when its bounds
+        // coincide) it may take part in time-point arithmetic, where it stands for its value
+        Op ro;
+        ro.name = "real";
+        ro.a = {0};
+        apply(ro);
+        tp_fixed = m.reals.back();
+        const mpq_class c(1 + modn(op.arg(0) >> 1, 4));
+        planted[tp_fixed] = c;
+        auto fb = std::make_shared<B>();
+        fb->k = B::REL;
+        fb->rel = EQ;
+        fb->l.t.push_back({mpq_class(1), Path{tp_fixed}});
+        fb->r.k = c;
+        assert_stmt(fb);
+        m.stmts.back().structural = true;
+      }
       auto b = std::make_shared<B>();
       b->k = B::REL;
       b->rel = GEQ;
@@ -621,6 +639,8 @@ namespace plan
               const size_t base = 11 + static_cast<size_t>(br) * 9 + static_cast<size_t>(q) * 3;
               BP b = mk((op.arg(base) & 3) == 0 ? GEQ : LEQ, op.arg(base + 1), op.arg(base + 2), op.arg(base) >> 2, 1, false, 0);
               b->r.k = mpq_class(modn(op.arg(base) >> 2, 9)); // small non-negative bounds: paths and direct constraints compete
+              if (!tp_fixed.empty() && (op.arg(base) & 16))
+                b->r.t.push_back({mpq_class(1), Path{tp_fixed}}); // `ti - tj <= xf + k`
               rels.push_back(b);
             }
           }
